@@ -133,6 +133,7 @@ def generate(rng, tier):
     cases.append({"perc": RING})
     for v in range(3 if tier == "quick" else 6):
         cases.append({"e2e": v})       # v % 4 == 2: the file is followed through a symbolic link, for longer than the 3 s truncation check
+    cases.append({"e2e_glob": 3})      # one tail command whose glob matches three files
     return cases
 
 
@@ -232,6 +233,61 @@ def _e2e(v):
     return res
 
 
+def _e2e_glob(k):
+    """One dtail command whose file argument is a glob matching k files: every line appended to each of them after the follow
+    began is printed exactly once (in the file's order), nothing that was there before, nothing unterminated."""
+    env = srv.Env(os.path.join(vf.scratch(), "c04envg"))
+    s = env.start_server("tg", hostname="tailhostg")
+    d = os.path.realpath(env.dir)
+    paths = [os.path.join(d, "globfollow_%s.log" % chr(97 + j)) for j in range(k)]
+    pre = b"PRE-EXISTING line\nPRE partial "
+    for pth in paths:
+        open(pth, "wb").write(pre)
+    outp = os.path.join(env.dir, "clientg.out")
+    cmd = [os.path.join(srv.BIN, "dtail"), "--cfg", "none", "--noColor", "--servers", "127.0.0.1:%d" % s.port, "--trustAllHosts",
+           "--key", env.key, "--user", "root", "--files", os.path.join(d, "globfollow_*.log")]
+    of = open(outp, "wb")
+    p = subprocess.Popen(cmd, stdin=subprocess.DEVNULL, stdout=of, stderr=subprocess.STDOUT, env=env.client_env(), cwd=env.dir)
+    res = {"e2e_glob": k}
+    want = {j: [b"file %s appended line %02d" % (chr(97 + j).encode(), n) for n in range(6 + j)] for j in range(k)}
+    try:
+        if not _wait(lambda: all(_server_pos(s.proc.pid, pth) == len(pre) for pth in paths), 20):
+            res["error"] = "server did not open and position every file of the glob"
+            return res
+        size = {j: len(pre) for j in range(k)}
+        for n in range(max(len(v) for v in want.values())):
+            for j in range(k):
+                if n < len(want[j]):
+                    with open(paths[j], "ab") as f:
+                        f.write(b"\n" + want[j][n] + b"\n" if n == 0 else want[j][n] + b"\n")   # (n == 0 ends the pre-existing partial line)
+                    size[j] += len(want[j][n]) + (2 if n == 0 else 1)
+            time.sleep(0.05)
+        for j in range(k):
+            with open(paths[j], "ab") as f:
+                f.write(b"unfinished")
+            size[j] += 10
+        if not _wait(lambda: all(_server_pos(s.proc.pid, paths[j]) == size[j] for j in range(k)), 20):
+            res["error"] = "server did not catch up"
+            return res
+        total = sum(len(v) for v in want.values()) + k
+        _wait(lambda: open(outp, "rb").read().count(b"REMOTE|") >= total, 5)
+        time.sleep(0.3)
+    finally:
+        p.send_signal(signal.SIGTERM)
+        try:
+            p.wait(5)
+        except subprocess.TimeoutExpired:
+            p.kill(); p.wait()
+        of.close()
+        env.stop_all()
+    out = open(outp, "rb").read()
+    res["texts"] = [l.split(b"|", 5)[5].hex() for l in out.split(b"\n") if l.startswith(b"REMOTE|") and len(l.split(b"|", 5)) == 6]
+    res["want"] = {str(j): [t.hex() for t in v] for j, v in want.items()}
+    res["unfinished_seen"] = b"unfinished" in out
+    res["pre_seen"] = b"PRE-EXISTING" in out
+    return res
+
+
 def run_impl(cases, tier):
     obs = [None] * len(cases)
     for maxlen in (None, 16):
@@ -252,6 +308,8 @@ def run_impl(cases, tier):
             obs[i] = r[0]
         elif "e2e" in c:
             obs[i] = _e2e(c["e2e"])
+        elif "e2e_glob" in c:
+            obs[i] = _e2e_glob(c["e2e_glob"])
     return obs
 
 
@@ -318,6 +376,24 @@ def judge(cases, obs, tier):
             bad = [(m, t, row[t]) for m, row in enumerate(o["table"]) for t in range(m) if row[t] >= 100]
             if bad:
                 oracle[i] = "transmittedPerc reports %d for matched=%d transmitted=%d" % (bad[0][2], bad[0][0], bad[0][1])
+            continue
+        if "e2e_glob" in c:
+            texts = [bytes.fromhex(t) for t in o.get("texts", [])]
+            if o.get("error"):
+                errors.append("glob follow: %s" % o["error"])
+            elif o["pre_seen"]:
+                oracle[i] = "dtail printed content that was in a file before the follow began"
+            elif o["unfinished_seen"]:
+                oracle[i] = "dtail printed an unterminated last line"
+            else:
+                for j, w in sorted(o["want"].items()):
+                    w = [bytes.fromhex(t) for t in w]
+                    # the first appended piece ends the line that was partial when the follow began: that line (its tail) is delivered too
+                    got = [t for t in texts if t.startswith(w[0][:6])]
+                    if got != w:
+                        oracle[i] = "one tail command, glob matching %d files: file %s got lines appended %r, dtail delivered %r" % (
+                            len(o["want"]), j, [t[-7:] for t in w], [t[-7:] for t in got])
+                        break
             continue
         if "e2e" in c:
             lines = [l for l in e2e_lines(c["e2e"]) if (not o["regex"]) or b"keep" in l or b"last" in l]
